@@ -5,6 +5,8 @@ use super::*;
 #[cfg(kani)]
 mod kani_harnesses {
     use super::*;
+    // concrete counterexamples printed by Kani are replayed natively from this file (normally empty; written by vx/kanirun.py)
+    include!("/verif/.cache/playback/peer_handler.rs");
     // HAND/PieceRx::left/blocks_tile_the_piece on the REAL, unrewritten loop (for .. step_by): BOUNDED, every length up to
     // BLOCKS * 16 KiB: block k starts at k*16384, lengths are 16384 except a non-empty last remainder, they add up to l (C10)
     fn left_case(max_blocks: usize) {
